@@ -6,7 +6,9 @@ RULE = ("PS: structure-aware generator (3 comment styles x UTF-8 / UTF-8+BOM / U
         "BMP code units containing a 0x0A byte / astral x with and without final newline x unsigned / signed once / signed twice) plus a "
         "malformed stream (marker on the first line, marker after a too-short line, delimiter-only signature lines, missing end marker, "
         "LF-only block, truncation, odd trailing byte, BOM flips, stray 0x0A bytes, invalid UTF-8, lone surrogates, trailing text, two blocks, "
-        "near-marker lines, unknown style); ops: digest (hash stream, TextSize, SigSize), sign (MakePatch + real patch application + "
+        "near-marker lines, unknown style) plus signed-then-line-endings-converted scripts (every style x UTF-8 / UTF-8+BOM / UTF-16LE+BOM x whole "
+        "file / block with / without the line break in front of it / only that line break converted to LF; the text in front of the block is "
+        "found by an independent scan and must survive byte for byte); ops: digest (hash stream, TextSize, SigSize), sign (MakePatch + real patch application + "
         "re-digest), resign (two rounds vs one), locate (VerifyPowershell line scan), realsign (signer module with real keys, two "
         "rounds, real verifier, every style x encoding), mutate (C02); C02 also gets digest ops on UTF-8 scripts with 2/3/4-byte characters, "
         "predicate ps_hashed_is_utf16 (imprint = SHA-256 of the UTF-16LE encoding of the text, computed by the check). Non-trivial = distinct op with a known style.")
@@ -77,8 +79,67 @@ def _valid_utf16(data):
         return False
 
 
+_STYLES = {"1": ("# ", ""), "2": ("<!-- ", " -->"), "3": ("/* ", " */")}
+
+
+def text_before_block(data, style):
+    """INDEPENDENT scan (not relic's): the bytes in front of the first begin-marker line of this style, the marker line ending
+    in CRLF or in a bare LF; UTF-16LE (FF FE) is scanned by code units.  Returns (T, marker_eol, T0) where T0 is T without the
+    one line break in front of the block (the documented handling: that line break belongs to the block), or (data, None, data)
+    when there is no marker line."""
+    if style not in _STYLES:
+        return data, None, data
+    st, en = _STYLES[style]
+    mark = (st + "SIG # Begin signature block" + en).encode()
+    u16 = data[:2] == b"\xff\xfe"
+    if u16:
+        mark = mark.decode().encode("utf-16-le")
+    w = 2 if u16 else 1
+    lf, cr = (b"\n\0", b"\r\0") if u16 else (b"\n", b"\r")
+    pos = 0
+    while pos < len(data):
+        i = pos
+        while i + w <= len(data) and data[i:i + w] != lf:
+            i += w
+        if i + w > len(data):
+            break                                   # last line, not terminated
+        line = data[pos:i]
+        eol = "lf"
+        if line.endswith(cr) and (len(line) - len(cr)) % w == 0:
+            line, eol = line[:len(line) - w], "crlf"
+        if line == mark:
+            t = data[:pos]
+            t0 = t
+            if t.endswith(cr + lf) and (len(t) % w == 0):
+                t0 = t[:-2 * w]
+            elif t.endswith(lf) and (len(t) % w == 0):
+                t0 = t[:-w]
+            return t, eol, t0
+        pos = i + w
+    return data, None, data
+
+
+def _mixed_eol(data, style):
+    """identity of the known finding F-ps-eol: the marker line relic recognises (CRLF form) follows a line that does not end in CRLF"""
+    t, eol, _ = text_before_block(data, style)
+    u16 = data[:2] == b"\xff\xfe"
+    crlf = b"\r\0\n\0" if u16 else b"\r\n"
+    return eol == "crlf" and not t.endswith(crlf)
+
+
 def predicate(prop, op, il, mres, tag):
     f = op.split()
+    if f[1] == "sign" and il.startswith("ok ") and prop in ("C03", "C01"):
+        # judged on the implementation's output alone: the script text in front of the (first) signature block - found by an
+        # independent scan that accepts CRLF and bare-LF marker lines - is still in front, byte for byte, up to the one line
+        # break in front of the block; a script without a block is kept completely
+        inp, out = _b(f[3]), _b(il.split(" ")[1])
+        t, eol, t0 = text_before_block(inp, f[2])
+        if not (out.startswith(t0) and len(out) > len(t0)):
+            k = next((i for i in range(min(len(out), len(t0))) if out[i] != t0[i]), min(len(out), len(t0)))
+            return ("Relic.Props.C03.ps_payload_preserved / ps_text_before_block_preserved_partial",
+                    "script text unchanged in front of the signature block",
+                    "script text altered by signing: first difference at byte %d of %d (marker line ends in %s)" % (k, len(t0), eol))
     if il.startswith("crash") or il.startswith("not-run"):
         return ("Relic.Props.%s (ps)" % prop, mres, "implementation process died")
     if il.startswith("panic") and f[1] != "mutate":
@@ -134,4 +195,7 @@ def predicate(prop, op, il, mres, tag):
 def matches_known(k, op, il, mres, tag):
     ident = k.get("identity", {})
     site = ident.get("site", "")
+    if site == "authenticode.DigestPowershell:eol-strip":
+        f = op.split()
+        return f[1] == "sign" and il.startswith("ok ") and il == mres and _mixed_eol(_b(f[3]), f[2])
     return il.startswith("panic") and mres.startswith("panic") and site and site in il and site in mres
